@@ -95,7 +95,8 @@ def butter_rules(chk):
                    const_in=[R], loc=e.loc)
             if cont == K_TUPLE:
                 chk.ob("R-BP-TYPE", cc + "{order default}", "default filter order 4", e.order.has_const() and e.order.const == 4,
-                       derived="order %r" % (e.order.const if e.order.has_const() else "?"), loc=e.loc)
+                       derived="order %r" % (e.order.const if e.order.has_const() else "?"), loc=e.loc,
+                       inconclusive=not e.order.has_const())       # an order the engine did not fold to a constant is not a located other default
     # explicit order keyword
     r = analyse(chk, BP, lambda I, st, fi: {"cut_off": AV(kind=K_TUPLE, items=(lo, hi)),
                                             "kwargs": kwargs_av(filter_order=AV(kind=K_SCALAR, dtype="int", shape=(), tags=frozenset(["p:filter_order"])))},
@@ -678,7 +679,17 @@ def rolling_rules(chk):
             good = [ok2, ok2, ok2]
         # a loop without a three-way decision on the index (window bounds precomputed, clipped, vectorised ...) is a different design: the
         # table cannot be located in it and the rule does not decide it; a three-way table that differs is refuted
-        located = bool(t) and len(t) >= 2
+        # (a branch of the table that holds no window slice -- the bounds are computed in a helper, returned as a pair, chosen by conditional
+        # expressions -- is not a located row)
+        located = bool(t) and len(t) >= 2 and all(len(row) >= 2 and row[1] for row in t)
+        if located:
+            import re as _re
+
+            def _plain(p_):
+                # bounds written in terms of the loop index and the width only; a bare local the rule cannot see through (`hi`) is not read
+                return p_ is None or all(a_ == "i" or not _re.fullmatch(r"[A-Za-z_]\w*", a_) or a_ in fi.params for a_ in p_.atoms())
+            located = all((row[0] is None or (isinstance(row[0], tuple) and row[0][0] in ("Lt", "Gt", "LtE", "GtE"))) and
+                          all(_plain(lo_) and _plain(hi_) for lo_, hi_ in row[1]) for row in t)
         if not located:
             cw = clipped_window(fi)
             if cw is not None:
